@@ -135,6 +135,89 @@ func c21Certs() map[string]tls.Certificate {
 	return bigCerts
 }
 
+// certOfMessageBody makes a one-certificate chain whose TLS 1.3 Certificate message body is exactly n
+// bytes (context length 1 + list length 3 + entry length 3 + DER + entry extensions 2).
+var (
+	limitCertMu sync.Mutex
+	limitCerts  = map[int]tls.Certificate{}
+)
+
+func certOfMessageBody(n int) tls.Certificate {
+	limitCertMu.Lock()
+	defer limitCertMu.Unlock()
+	if c, ok := limitCerts[n]; ok {
+		return c
+	}
+	f := peer.Fix()
+	pad := n - 1200
+	for try := 0; try < 60; try++ {
+		k, _ := ecdsa.GenerateKey(elliptic.P256(), rand.Reader)
+		t := &x509.Certificate{SerialNumber: big.NewInt(int64(n)), Subject: pkix.Name{CommonName: "limit"},
+			NotBefore: peer.Now.AddDate(-1, 0, 0), NotAfter: peer.Now.AddDate(1, 0, 0), DNSNames: peer.Names,
+			KeyUsage: x509.KeyUsageDigitalSignature, ExtKeyUsage: []x509.ExtKeyUsage{x509.ExtKeyUsageServerAuth},
+			ExtraExtensions: []pkix.Extension{{Id: asn1.ObjectIdentifier{1, 3, 6, 1, 4, 1, 55555, 2}, Value: bytes.Repeat([]byte{0x5a}, pad)}}}
+		der, err := x509.CreateCertificate(rand.Reader, t, f.CACert, &k.PublicKey, peer.CAKey())
+		if err != nil {
+			panic(err)
+		}
+		if d := n - (len(der) + 9); d != 0 {
+			pad += d // (signature length varies by a byte or two: converge on the exact size)
+			continue
+		}
+		leaf, _ := x509.ParseCertificate(der)
+		c := tls.Certificate{Certificate: [][]byte{der}, PrivateKey: k, Leaf: leaf}
+		limitCerts[n] = c
+		return c
+	}
+	panic("c21: could not size a certificate message")
+}
+
+// c21AtTheLimit: Certificate messages whose body sits on the 256 KiB handshake-message limit (and a few
+// bytes below), compressed: every one of them is accepted uncompressed, so it must be recovered.
+func c21AtTheLimit() *explore.Scenario {
+	encs := c21Encoders()
+	return &explore.Scenario{
+		Name: "certificate-message-at-the-size-limit", Watchdog: 120 * time.Second, HangSig: "C21|hang",
+		Run: func(x *explore.X) (r explore.Result) {
+			size := []int{262144, 262143, 262141, 262140}[x.Choose("message-body", 4)]
+			pick := x.Choose("alg", 3) + 1
+			var e encoder
+			for _, c := range encs {
+				if int(c.alg) == pick && strings.HasSuffix(c.name, "flush0") {
+					e = c
+					break
+				}
+			}
+			name := fmt.Sprintf("limit-%d", size)
+			limitCertMu.Lock()
+			_, have := c21Certs()[name]
+			limitCertMu.Unlock()
+			if !have {
+				c := certOfMessageBody(size)
+				limitCertMu.Lock()
+				bigCerts[name] = c
+				limitCertMu.Unlock()
+			}
+			cs := c21Case{certName: name, enc: e, advert: []tls.CertCompressionAlgo{tls.CertCompressionAlgo(e.alg)}, declared: func(n int) int { return n }, expect: "ok"}
+			what := fmt.Sprintf("Certificate message body of %d bytes, %s", size, e.name)
+			hs, body, rep := runC21(&cs)
+			if !rep {
+				r.Obs = "not-replaced"
+				return
+			}
+			if len(body) != size {
+				r.Violate("INFRA|c21-limit-size", "%s: body is %d bytes", what, len(body))
+				return
+			}
+			c21Oracle(&r, what, cs, hs, body)
+			r.Obs = fmt.Sprintf("size=%d|ok=%v", size, hs.CErr == nil)
+			r.Nontrivial = true
+			r.Class = what
+			return
+		},
+	}
+}
+
 func compressCertSpec(algs []tls.CertCompressionAlgo) *tls.ClientHelloSpec {
 	sp := handshakeSpec("tls13-minimal")
 	if len(algs) > 0 {
@@ -557,13 +640,13 @@ func c21Parrots() *explore.Scenario {
 }
 
 func c21Scenarios(thorough bool) []*explore.Scenario {
-	return []*explore.Scenario{c21Encodings(), c21Lengths(), c21Corruption(thorough), c21Parrots()}
+	return []*explore.Scenario{c21Encodings(), c21Lengths(), c21Corruption(thorough), c21Parrots(), c21AtTheLimit()}
 }
 
 func init() {
 	register(&Prop{ID: "C21", Level: "exploration", Variant: "A", Scenarios: c21Scenarios,
 		Run: func(c *explore.Check, thorough bool) {
-			c.Rule = "the server's Certificate message is replaced (verif hook, before it enters the server transcript) by a CompressedCertificate: every encoder structure of a finite menu (zlib 4 levels, brotli 3 qualities x 2 windows, zstd 3 levels x 2 windows + EncodeAll, each x flush {never, every 7 B, every 512 B}) x certificate message size {1 cert, 3-cert chain, 60 KiB, 250 KiB} x advertised list {only that algorithm, two, all three} (and, for the small certificate, with a CertificateRequest preceding it) must be recovered exactly; declared length {-1,-100,0,+1,+100,2^24-1}, unadvertised algorithm, algorithm replaced in the extension object after the first build, and extension-removed-after-build must be refused (bad_certificate); every byte XOR 0xff and every truncation of the compressed stream of the small certificate (6 encodings incl. zlib stored blocks, a zstd frame from the encoder with a checksum and a hand-assembled zstd frame of one Raw_Block with a checksum, where only the stream's own checksum notices) must be refused or decode to the identical certificates; parrots that advertise compression x each algorithm. distinct = case"
+			c.Rule = "the server's Certificate message is replaced (verif hook, before it enters the server transcript) by a CompressedCertificate: every encoder structure of a finite menu (zlib 4 levels, brotli 3 qualities x 2 windows, zstd 3 levels x 2 windows + EncodeAll, each x flush {never, every 7 B, every 512 B}) x certificate message size {1 cert, 3-cert chain, 60 KiB, 250 KiB} x advertised list {only that algorithm, two, all three} (and, for the small certificate, with a CertificateRequest preceding it) must be recovered exactly; declared length {-1,-100,0,+1,+100,2^24-1}, unadvertised algorithm, algorithm replaced in the extension object after the first build, and extension-removed-after-build must be refused (bad_certificate); every byte XOR 0xff and every truncation of the compressed stream of the small certificate (6 encodings incl. zlib stored blocks, a zstd frame from the encoder with a checksum and a hand-assembled zstd frame of one Raw_Block with a checksum, where only the stream's own checksum notices) must be refused or decode to the identical certificates; parrots that advertise compression x each algorithm; Certificate message bodies of {262144 (the limit), 262143, 262141, 262140} bytes x 3 algorithms must be recovered. distinct = case"
 			c.Assumptions = []string{"encoders: compress/zlib, andybalholm/brotli, klauspost/compress/zstd from the module cache", "the hook position keeps client and server transcripts in agreement (both hash the CompressedCertificate message)"}
 			runAll(c, c21Scenarios(thorough), 0)
 			c.Gate(c.Total.Counters["recovered_exactly"] > 50, "non-vacuity: %d exact recoveries", c.Total.Counters["recovered_exactly"])
